@@ -10,6 +10,7 @@ import TemplVerif.Drive.C18
 import TemplVerif.Drive.C11
 import TemplVerif.Drive.C0809
 import TemplVerif.Drive.C0607
+import TemplVerif.Drive.C10
 import Std.Data.HashMap
 open TemplVerif TemplVerif.Drive
 
@@ -24,6 +25,7 @@ def dispatch (ws : List String) : Verdict :=
   | "C19" :: rest => C19.handle rest
   | "C18" :: rest => C18.handle rest
   | "C11" :: rest => C11.handle rest
+  | "C10" :: rest => C10.handle rest
   | "C06" :: rest => C0607.handleC06 rest
   | "C07" :: rest => C0607.handleC07 rest
   | "C08" :: rest => C0809.handleC08 rest
